@@ -31,6 +31,10 @@ checks = {
    'Two runtime monitors through api.Entry on a minimal chain. (1) Exact sequential pacing model on generated nanosecond arrival histories (pass = max(now, last+ceil(batch/threshold*interval)); reject iff that exceeds the queueing limit or batch > threshold), comparing every decision and requested sleep. (2) Cooperative scheduler with core/flow/tc_throttling.go compiled against the shimmed atomics: 2-3 callers x 1-2 calls and a clock-tick worker interleaved at every atomic access of DoCheck (random walk, PCT d<=3, bounded DFS); on the set of admitted (arrival, requested sleep) pairs the sorted pass times must be spaced by the later request\'s cost, every sleep within the limit, and each rejection justified by a value the shared timestamp took during that call (recorded by the shim).',
    'Sleeps are recorded through the virtual clock, not slept; interleavings sampled / bounded (<=3 callers x 2 calls); Go atomics assumed sequentially consistent.',
    'runtime reference-model monitor + cooperative-scheduler interleaving monitor over build-time-shimmed atomics', 'DESIGN.md §3 C10'),
+ 'C11': ('exploration',
+   'Behavioural envelope monitor: warm-up rules (threshold 0.5-1000, period 1-30 s, cold factor default/2-10) are driven through api.Entry with saturating, saturating-idle-saturating, one-request-per-tick and bursty demand simulated at 10-20 ms resolution in virtual time for 3*period+10 s and longer; W1 admitted tokens per aligned 1 s window <= threshold (a NaN / infinite effective threshold shows up here), W2 first second after a cold start <= ceil(T/cold)+1, W3 full rate after 3*period+10 s of saturating demand, W4 (T>=1) a steady single-token demand is admitted at least once per 3*period+10 s. Memory-adaptive rules: the effective threshold, measured as the number of admissions in an empty frozen window, under a monotone sweep of injected memory readings equals the low / high memory threshold at or beyond the water marks, stays inside the envelope and never rises with usage.',
+   'Thresholds are observed only through admissions (integer resolution); tolerances W2 (+1) / W3 (floor-1) / W4 (3*period+10 s) are the bounded restatements documented in DESIGN.md; configurations and demand shapes are sampled.',
+   'runtime envelope monitor over admission counts per virtual second (behavioural threshold measurement)', 'DESIGN.md §3 C11'),
  'C12': ('exploration',
    'Cooperative-scheduler monitor: circuit_breaker.go (and the leap array it spins on) compiled against the shimmed atomics; 2-3 real goroutines performing Entry, Entry+Exit(ok/err) and completions of pre-existing entries, plus clock ticks of 1 ms / 0.5 / 1- / 1 / 1.5 retry timeouts, are interleaved at every atomic access around the trip, double-trip, timeout-expiry, probe-success, probe-failure and re-open transitions (random walk, PCT d<=3, bounded DFS). The oracle runs on the recorded total order of state loads / CAS (from the shim), listener callbacks and API call/return events: state changes only by legal CAS; the listener multiset equals the performed transitions with the same caller, previous state and program order; no Open->HalfOpen earlier than the opening call\'s begin + retry timeout; every admission justified by the state its caller read (Closed, its own Open->HalfOpen CAS, or HalfOpen with a probe number) and no rejection after reading Closed. Second engine: 24 goroutines with a ticking virtual clock under the race detector, listener multiset must be orderable into a path from Closed.',
    'One breaker per resource in this engine; interleavings sampled / bounded (<=3 workers); the opening instant is taken as the begin of the opening call (earliest possible), so a caller pre-empted inside the transition is not mis-reported; Go atomics assumed sequentially consistent.',
@@ -47,6 +51,10 @@ checks = {
    'Model-based monitor of the five JSON property handlers: generated delivery sequences (arrays of generated valid / field-wise invalid rules written by a hand-written encoder of the documented wire format incl. hot-param specific items of all four kinds, arrays with null elements, identical redelivery, truncated JSON at a random byte, wrongly typed elements, garbage, empty payload, JSON null, bad-then-good); after each delivery Handle\'s return (nil iff decodable), absence of panics and the module\'s rules in force (every field, canonical form = wire round trip) are compared with the valid rules described by the last decodable payload. Second engine: the refreshable file datasource on a scratch file under write / truncate-then-write / in-place corruption / rename-away / remove, convergence polled and only counted when a control fsnotify watcher owned by the monitor saw the event.',
    'Trusts the hand-written wire encoder and the monitor\'s transcription of rule validity; truncations are sampled, not every prefix; the file engine uses real inotify and a bounded wall-clock poll (inconclusive, not violated, when the control watcher saw nothing).',
    'runtime model-based monitor over payload sequences + fault-sequence monitor on a real watched file with a control observer', 'DESIGN.md §3 C18'),
+ 'C14': ('exploration',
+   'Metamorphic twin-execution monitor: run A never reloads; run B replays the same generated traffic at the same relative virtual instants (shifted by one hour, a multiple of every window length) and reloads the rule list at a random position through the whole-set or the per-resource path, keeping one rule field-for-field identical (fresh object) while the other rules are added / removed / modified on another resource, or inert rules are added before / after, removed, modified, the unchanged rule is duplicated, or the list is reordered. Traces of (decision, block type, triggered rule id, requested sleep) must be equal. Families: reject rule on default / reused / standalone windows, throttling mid-queue, warm-up mid-ramp, breaker (closed with partial window / open with pending deadline / half-open), hot-param token and concurrency counters. Second clause: a modified rule with unchanged statistic parameters keeps its standalone window / error count / live counters.',
+   'Assumes per-resource state is independent of the resource name and of absolute time modulo one hour; inert rules have thresholds of 1e9; edits are sampled from ten classes.',
+   'runtime metamorphic monitor (twin executions with / without reload compared trace-for-trace)', 'DESIGN.md §3 C14'),
  'C15': ('exploration',
    'Race-detector stress monitor: 12 traffic goroutines over generation-coded flow / isolation / hot-param / system resources, un-churned always-block / always-pass resources, breaker, outlier and plain resources; one rule updater per module alternating whole-set and per-resource loads and clears; 4 reader goroutines calling every getter, node statistics, the node list and per-second items; a ticking virtual clock. Oracles: (1) every WARNING: DATA RACE block in the GORACE logs with a sentinel-golang frame is a violation signed by the innermost repo functions of the two accesses; (2) death of the process (panic, fatal error, checkptr) is a violation; (3) each decision on a generation-coded resource must be a block by the block-all rule of a single generation g with (last load completed before the call) <= g <= (last load begun before the return) - a pass or a mismatched (generation, position) id is a torn rule switch; (4) decisions on the un-churned resources are constant; (5) no progress for 60 s with >=2 goroutines parked on library mutexes is a deadlock.',
    'Samples the schedules the Go runtime produces (16 cores, Gosched / microsecond sleeps as perturbation); the race detector only sees accesses that actually execute; generation rules are made semantically different between generations so that controller re-use (equal-but-for-ID rules) cannot blur the generation id.',
@@ -63,6 +71,10 @@ checks = {
    'Lock-step per-(rule,value) semaphore model vs. api.Entry/Exit on generated histories (index / negative index / attachment key selection, specific items over int/string/bool/float/struct/int64 values, threshold 0-4, nested and out-of-order exits, interleaved arg-less entries that recycle pooled objects), Input.Args of every live entry re-read after every op, capacity probe at quiescence; plus 16 goroutines under the race detector with barrier capacity probes (each value must admit exactly its threshold once everything has exited).',
    'Trusts the semaphore model; distinct live values stay below the parameter capacity; under real concurrency only conservation at quiescence and argument integrity are asserted (the statement gives no k-1 allowance and the check/increment window is real).',
    'runtime reference-model monitor + race-detector stress with quiescent capacity probes', 'DESIGN.md §3 C06'),
+ 'C07': ('exploration',
+   'Reference-model monitor: for every inbound request of generated mixed inbound/outbound histories (overlapping requests, response times, clock steps around bucket boundaries, injected load / CPU readings around the triggers) the set of violated system rules is computed from the monitor\'s own aligned-window log of the inbound totals (QPS, in-flight, floor-average rt, load / cpu with the BBR capacity estimate peak-completion-rate x min-rt); the real decision must be a system block iff the set is non-empty, with a triggered rule from the set; outbound requests must never be blocked; invalid rules must not matter.',
+   'Trusts ref.Win and the monitor\'s transcription of the five predicates; only system rules are loaded; any violated rule is accepted as the triggered one (map iteration order); sequential callers.',
+   'runtime reference-model monitor (predicate over the monitor\'s own traffic log) under a virtual clock', 'DESIGN.md §3 C07'),
  'C08': ('exploration',
    'Reference-model monitor: every getter of BucketLeapArray / SlidingWindowMetric / BaseStatNode is compared with a naive aligned-bucket multiset model after every step of generated monotone virtual-time histories (hostile deltas: exact bucket/cycle boundaries, idle gaps beyond the array, near-zero times) over sampled valid geometries, plus an exhaustive constructibility grid. Held on the histories executed, nothing more.',
    'Trusts the 150-line reference model ref.Win and the virtual clock; sequential only (concurrency is C09); geometries and histories are sampled, the grid (13x16)^2 is exhaustive.',
